@@ -22,13 +22,13 @@ import (
 func init() { drivers["C07"] = driveC07 }
 
 type c07Case struct {
-	Multipart   bool                `json:"multipart"`
-	ContentType string              `json:"content_type"`
-	Body        string              `json:"body"` // JSON body or the operations form value
-	Map         *string             `json:"map,omitempty"`
-	Files       map[string]string   `json:"files,omitempty"` // part name -> content
-	Schema      string              `json:"schema"`          // which rig
-	Origin      string              `json:"origin"`
+	Multipart   bool              `json:"multipart"`
+	ContentType string            `json:"content_type"`
+	Body        string            `json:"body"` // JSON body or the operations form value
+	Map         *string           `json:"map,omitempty"`
+	Files       map[string]string `json:"files,omitempty"` // part name -> content
+	Schema      string            `json:"schema"`          // which rig
+	Origin      string            `json:"origin"`
 }
 
 type parseObs struct {
